@@ -19,7 +19,7 @@ PROBES = ['retry-round', 'round>=3', 'per-recipient-result', 'mixed-outcome',
           'backend:cloud+mq']
 STATES_MEASURE = qc.__doc__ and ('distinct (backend, per-message sequence of '
                                  '(result shape, sorted ground-truth outcomes))')
-BIAS = {'min_rcpts': 2, 'max_rcpts': 4, 'L': [1, 2, 2, 3, 3],
+BIAS = {'p_split': 0.25, 'min_rcpts': 2, 'max_rcpts': 4, 'L': [1, 2, 2, 3, 3],
         'waits': (0, 0, 0, 1, 1, 5), 'p_map': 0.8,
         'verdicts': ['ok', 'none', 'temp', 'temp', 'temp', 'perm'],
         'whole': ['temp', 'temp', 'other', 'none', 'perm'],
@@ -121,9 +121,16 @@ def racing_fetch(obs, a, prev, att):
     writes = [o for o in ops if o['op'] == 'write' and o['s1'] is not None]
     if not writes:
         return False
-    # the first attempt ran while write() had not yet returned
-    return writes[0]['s1'] > prev['start_seq'] and \
-        writes[0]['s1'] < att['start_seq']
+    # enqueue() registers ids only after *all* writes of the call (one per
+    # envelope a split policy produced) have returned: take the last sibling
+    k = writes[0].get('k')
+    sib = [o for o in obs['store_ops'] if o['op'] == 'write' and
+           o['s1'] is not None and isinstance(o.get('k'), int) and
+           isinstance(k, int) and k >= 100 and o['k'] >= 100 and
+           o['k'] // 100 == k // 100 and o['tag'] == writes[0]['tag']]
+    last = max([writes[0]['s1']] + [o['s1'] for o in sib])
+    # the first attempt ran while enqueue() was still waiting for its writes
+    return last > prev['start_seq'] and last < att['start_seq']
 
 
 def hq_norm(id):
